@@ -144,13 +144,81 @@ inline std::string run_signal_history(vf::rng &r, std::string &trace, int &ops) 
     }
     return err;
 }
+// ---------------------------------------------------------------------------------------------
+// hook_up(): the listener registers its collector with a signal generator atomically with its first suspension, so that it is woken
+// "by the very first emitted signal" - including a value the generator emits synchronously from inside the registration call
+// ("current value on subscribe"). Every hooked listener owns a private signal; the generator keeps the collectors.
+struct sl_generator { std::vector<cocls::signal<int>::collector> cols; std::vector<int> owner; int registrations = 0; };
+inline cocls::async<void> sl_hook_listener(sl_generator &G, sl_rec &rec, int idx, int emit_on_register) {
+    auto e = cocls::signal<int>::hook_up([&G, idx, emit_on_register](cocls::signal<int>::collector c) {
+        G.cols.push_back(std::move(c)); G.owner.push_back(idx); G.registrations++;
+        if (emit_on_register >= 0) G.cols.back()(emit_on_register); // the generator reports its current value right away
+    });
+    try {
+        do {
+            int &v = co_await e;
+            rec.vals.push_back(v);
+        } while (rec.forever);
+    } catch (const cocls::await_canceled_exception &) { rec.canceled++; }
+    rec.finished++;
+}
+inline std::string run_hookup_history(vf::rng &r, std::string &trace, int &ops) {
+    std::string err;
+    std::deque<sl_rec> L;
+    std::vector<std::vector<int>> want;
+    sl_generator G;
+    int len = 2 + (int)r.below(14), next_val = 1;
+    trace = "[hook_up] ";
+    auto check_all = [&](const char *after) {
+        for (size_t i = 0; i < L.size() && err.empty(); i++) if (L[i].vals != want[i]) {
+            std::string got, exp; for (int v : L[i].vals) got += std::to_string(v) + " "; for (int v : want[i]) exp += std::to_string(v) + " ";
+            err = std::string("after ") + after + ": hooked listener #" + std::to_string(i) + " received [" + got + "], expected [" + exp + "]";
+        }
+    };
+    for (int step = 0; step < len && err.empty(); step++) {
+        uint32_t x = r.below(100); ops++;
+        if (x < 40 && L.size() < 8) {
+            L.emplace_back(); want.emplace_back(); sl_rec &l = L.back();
+            l.forever = r.chance(3, 4);
+            int first = r.chance(1, 2) ? next_val++ : -1;
+            bool in_coro = r.chance(1, 3);
+            trace += std::string(in_coro ? "[coroutine mode] " : "") + (l.forever ? "hook_up" : "hook_up-once") + (first >= 0 ? "(emits on registration) " : " ");
+            int idx = (int)L.size() - 1;
+            if (in_coro) cocls::coro_queue::install_queue_and_call([&] { sl_hook_listener(G, l, idx, first).detach(); }); else sl_hook_listener(G, l, idx, first).detach();
+            l.waiting = true;
+            if (first >= 0) { want.back().push_back(first); if (!l.forever) l.waiting = false; }
+            if (G.registrations != idx + 1 && err.empty()) err = "registration function of hook_up was not called exactly once at the first co_await";
+            check_all("hook_up");
+        } else if (x < 90 && !G.cols.empty()) {
+            int v = next_val++;
+            bool in_coro = r.chance(1, 3);
+            trace += std::string(in_coro ? "[coroutine mode] " : "") + "emit ";
+            for (size_t i = 0; i < L.size(); i++) if (L[i].waiting) { want[i].push_back(v); if (!L[i].forever) L[i].waiting = false; }
+            auto doit = [&] { for (auto &c : G.cols) c(v); };
+            if (in_coro) cocls::coro_queue::install_queue_and_call(doit); else doit();
+            check_all("emit");
+        } else if (x < 96 && !G.cols.empty()) {
+            trace += "generator drops all collectors ";
+            G.cols.clear(); G.owner.clear();
+            for (size_t i = 0; i < L.size() && err.empty(); i++) {
+                if (L[i].waiting && (L[i].canceled != 1 || !L[i].finished)) err = "waiting hooked listener #" + std::to_string(i) + " was not cancelled when the generator dropped its collector";
+                L[i].waiting = false;
+            }
+            check_all("drop");
+        }
+    }
+    G.cols.clear();
+    for (size_t i = 0; i < L.size() && err.empty(); i++) if (L[i].finished != 1) err = "hooked listener #" + std::to_string(i) + " finished " + std::to_string(L[i].finished) + " times after its collector was dropped";
+    if (err.empty()) check_all("final drop");
+    return err;
+}
 inline void signal_history(const vf::opts &o, vf::report &R, uint64_t histories) {
     vf::rng master(vf::mix(o.seed, 0x15));
     for (uint64_t hn = 0; hn < histories && R.nviol() < 5; hn++) {
         vf::rng r(master.next());
         vf::set_crash_ctx(R.prop.c_str(), "signal_history", o.seed, hn);
         std::string trace; int ops = 0;
-        std::string err = run_signal_history(r, trace, ops);
+        std::string err = hn % 5 == 4 ? run_hookup_history(r, trace, ops) : run_signal_history(r, trace, ops);
         R.cases++;
         if (!err.empty()) { R.violation("monitor:delivery|signal_history", err, vf::jobj().kv("history", (unsigned long long)hn).kv("ops", trace).kv("disagreement", err).str()); continue; }
         if (ops >= 3) { R.nontrivial_cases++; R.sig(trace); }
